@@ -322,7 +322,27 @@ def gen_inputs(tier):
             ch = 7
         out.append(("size%d" % s, msg, valid3 if k % 2 else b"F\0Tonly@x.test\0\0", "aods"[k % 4], ch))
         k += 1
+    if tier == "thorough":
+        # every size under every read chunking
+        for s in sizes:
+            if s > 5000:
+                continue
+            msg = bytes((i * 11 + s) % 253 for i in range(s))
+            for ch in chunks:
+                out.append(("size%d-chunk%s" % (s, ch), msg, valid3, "aods"[k % 4], ch))
+                k += 1
     body = b"Subject: t\n\nhello\n"
+    # envelope lengths straddling the buffers of qmail-queue (256-byte output buffer, 2048/1024-byte input buffers)
+    for target in ((255, 256, 257, 2048, 2049) if tier == "quick" else
+                   (255, 256, 257, 511, 512, 513, 1023, 1024, 1025, 2047, 2048, 2049, 4095, 4096, 4097, 8193)):
+        env = b"Fs@x\0"
+        i = 0
+        while len(env) + 12 < target - 1:
+            env += b"Tr%d@y\0" % i
+            i += 1
+        env += b"T" + b"p" * (target - 1 - len(env) - 2) + b"\0\0"
+        assert len(env) == target, (len(env), target)
+        out.append(("envlen%d" % target, body, env, "o", [None, 1, 256][target % 3] if target < 3000 else None))
     # recipients 0..5
     for n in range(0, 6):
         env = b"Fs@x\0" + b"".join(b"Tr%d@y\0" % i for i in range(n)) + b"\0"
@@ -344,7 +364,7 @@ def gen_inputs(tier):
     out.append(("empty-env", body, b"", "o", None))
     out.append(("no-final-nul", body, b"Fs@x\0Tr@y\0", "o", None))
     if tier == "thorough":
-        for i in range(core.scaled(300)):
+        for i in range(core.scaled(1200)):
             rng = core.case_rng(PROP, i, "in")
             n = rng.choice([0, 1, 2, 3, 5, 9])
             env = b"F" + bytes(rng.randrange(1, 256) for _ in range(rng.choice([0, 3, 20, 999, 1002]))) + b"\0"
